@@ -67,13 +67,14 @@ func observe(t *biscuit.Biscuit, panel [][]AuthOp, g *scenGen) string {
 }
 
 func runC08(c *Ctx) {
-	c.Rule = "random histories (20-40 operations quick, up to 150 thorough) over a growing family: build, create-block (several builders from one parent before any is built), interleaved add-fact / add-rule / add-check on live builders with fresh symbols, build-block, further adds to a builder after its Build(), append (to the parent or to a sibling), seal, serialize + unmarshal, get-block-id, authorizer-for + authorize, print; symbol tables steered across capacity boundaries (2-17 symbols). After every operation every live token is observed and must be unchanged; at the end the Lean wire model decodes every live token and must find exactly what its own callers put in. Non-trivial = a history in which at least two builders were created from the same parent before one of them was built; distinct = distinct final token byte strings."
+	c.Rule = "(builder reuse) the authority Builder used again after Build(): the built token must not change, and a second Build() must carry everything put into the builder, as decoded by the Lean wire model; random histories (20-40 operations quick, up to 150 thorough) over a growing family: build, create-block (several builders from one parent before any is built), interleaved add-fact / add-rule / add-check on live builders with fresh symbols, build-block, further adds to a builder after its Build(), append (to the parent or to a sibling), seal, serialize + unmarshal, get-block-id, authorizer-for + authorize, print; symbol tables steered across capacity boundaries (2-17 symbols). After every operation every live token is observed and must be unchanged; at the end the Lean wire model decodes every live token and must find exactly what its own callers put in. Non-trivial = a history in which at least two builders were created from the same parent before one of them was built; distinct = distinct final token byte strings."
 	r := NewRng(c.Seed)
 	n := 150
 	steps := 30
 	if c.Thorough {
 		n, steps = 2500, 120
 	}
+	builderReuse(c, r)
 	for h := 0; h < n; h++ {
 		g := newScenGen(r, 0)
 		var panel [][]AuthOp
@@ -255,6 +256,95 @@ func runC08(c *Ctx) {
 		c.Count(fmt.Sprintf("family:%d", bucket(len(toks))))
 		if h < 2 {
 			c.Sample(map[string]interface{}{"history": trace})
+		}
+	}
+}
+
+
+// builderReuse: the authority Builder used again after Build(). The token already built must
+// stay what it was (in memory and serialized), and a second Build() must give a token that
+// carries everything the caller put into the builder so far (decoded by the wire model).
+func builderReuse(c *Ctx, r *Rng) {
+	n := 60
+	if c.Thorough {
+		n = 1500
+	}
+	_, priv := rootKeys()
+	for i := 0; i < n; i++ {
+		g := newScenGen(r, 0)
+		panel := [][]AuthOp{g.authContent()}
+		rd := &detRand{r.Fork()}
+		b := biscuit.NewBuilder(priv, biscuit.WithRNG(rd))
+		var content Block
+		sym := 0
+		add := func() string {
+			sym++
+			switch r.Intn(3) {
+			case 0:
+				f := Pred{Name: Pick(r, []string{"p", "role", "right"}), Terms: []Term{S(fmt.Sprintf("reuse%d_%d", i, sym))}}
+				if err := b.AddAuthorityFact(biscuit.Fact{Predicate: f.ToBiscuit()}); err == nil {
+					content.Facts = append(content.Facts, f)
+				}
+				return "add-authority-fact"
+			case 1:
+				ck := Check{Queries: []Rule{{Head: Pred{Name: "query"}, Body: []Pred{{Name: fmt.Sprintf("need%d_%d", i, sym), Terms: []Term{I(1)}}}}}}
+				if err := b.AddAuthorityCheck(ck.ToBiscuit()); err == nil {
+					content.Checks = append(content.Checks, ck)
+				}
+				return "add-authority-check"
+			}
+			rl := Rule{Head: Pred{Name: "q", Terms: []Term{S(fmt.Sprintf("reuse%d_%d", i, sym))}}, Body: []Pred{{Name: "p", Terms: []Term{V("x")}}}}
+			if err := b.AddAuthorityRule(rl.ToBiscuit()); err == nil {
+				content.Rules = append(content.Rules, rl)
+			}
+			return "add-authority-rule"
+		}
+		for k, m := 0, 1+r.Intn(4); k < m; k++ {
+			add()
+		}
+		t1, err := b.Build()
+		if err != nil {
+			continue
+		}
+		first := content
+		first.Facts = append([]Pred{}, content.Facts...)
+		first.Rules = append([]Rule{}, content.Rules...)
+		first.Checks = append([]Check{}, content.Checks...)
+		obs1 := observe(t1, panel, g)
+		var trace []string
+		for k, m := 0, 1+r.Intn(3); k < m; k++ {
+			trace = append(trace, add())
+			c.Eval()
+			if o := observe(t1, panel, g); o != obs1 {
+				c.Violate("C08/token-changed-by-builder", "using the Builder again after Build() changed the token it had built",
+					map[string]interface{}{"history": trace, "before": trunc(obs1, 1500), "after": trunc(o, 1500)})
+				obs1 = o
+				break
+			}
+		}
+		t2, err := b.Build()
+		c.Count("builder-reuse")
+		if err != nil {
+			c.Count("second-build-refused")
+			continue
+		}
+		if o := observe(t1, panel, g); o != obs1 {
+			c.Violate("C08/token-changed-by-builder", "a second Build() on the same Builder changed the first token",
+				map[string]interface{}{"history": append(trace, "build"), "before": trunc(obs1, 1500), "after": trunc(o, 1500)})
+		}
+		// what each of the two tokens carries, by the independent decoder
+		for k, tc := range []struct {
+			tok *biscuit.Biscuit
+			blk Block
+		}{{t1, first}, {t2, content}} {
+			data, err := tc.tok.Serialize()
+			if err != nil {
+				continue
+			}
+			sx := strings.TrimSuffix(wireCaseSx(data, TokenSpec{Blocks: []Block{tc.blk}}), ")") + " (interleaved))"
+			res := execCase("WIRE", sx)
+			c.Case("WIRE", c.NewID(fmt.Sprintf("reuse-build%d", k+1)), sx, res)
+			c.NonTrivial(hx(data))
 		}
 	}
 }
